@@ -160,7 +160,7 @@ def stmt_spans(s):
     return spans
 
 
-def compare_programs(ctx, sexprs, label, extra_env=None, finding_kinds=None, max_report=4):
+def compare_programs(ctx, sexprs, label, extra_env=None, finding_kinds=None, max_report=4, reject_is_violation=False):
     """Runs every program on both sides; reports disagreements. Returns per-program records."""
     mods = model_eval(sexprs)
     reqs = [{"id": f"m{i}", "src": m[0], "timeout_ms": 5000} for i, m in enumerate(mods)]
@@ -179,6 +179,12 @@ def compare_programs(ctx, sexprs, label, extra_env=None, finding_kinds=None, max
             continue
         ok = (mo == ro and mt == ra["stdout"])
         if ok:
+            continue
+        if ro.startswith("rejected") and not reject_is_violation:
+            # the real checker did not accept the program: outside the premise of the program-level
+            # properties (the generator is type-directed, but the real checker has rules the fragment
+            # does not model); counted, not reported. A generator that is mostly rejected shows in the stats.
+            ctx.stat("real-checker-rejects")
             continue
         if reported >= max_report:
             agree = False
